@@ -83,6 +83,150 @@ mod verif_kani {
         let _ = r;
     }
 
+    // L1 with the internal-register map abstracted by the std contract of HashMap::get
+    static IREGS: [InternalRegister; 4] = [InternalRegister::PC, InternalRegister::PSR, InternalRegister::MCR, InternalRegister::SavedSP];
+    static mut MAP_ANSWER: Option<usize> = None;
+    static mut MAP_ASKED: Option<u16> = None;
+    fn stub_map_get<'a, K, V, S, A: std::alloc::Allocator, Q: ?Sized>(_m: &'a HashMap<K, V, S, A>, k: &Q) -> Option<&'a V> {
+        // only instantiated at K = u16, V = InternalRegister, Q = u16 in the code under test
+        unsafe {
+            MAP_ASKED = Some(*(k as *const Q as *const u16));
+            match MAP_ANSWER { Some(i) => Some(&*(&IREGS[i] as *const InternalRegister as *const V)), None => None }
+        }
+    }
+    static mut DEV_READS: u32 = 0;
+    fn stub_io_read_rec(_d: &mut DeviceHandler, _addr: u16, _eff: bool) -> Option<u16> { unsafe { DEV_READS += 1; } kani::any() }
+    #[kani::proof]
+    #[kani::stub(std::hash::RandomState::new, stub_random_state)]
+    #[kani::stub(observer::AccessObserver::update_mem_accesses, stub_observe)]
+    #[kani::stub(<DeviceHandler as ExternalDevice>::io_read, stub_io_read_rec)]
+    #[kani::stub(std::collections::HashMap::get, stub_map_get)]
+    #[kani::unwind(9)]
+    fn l1_read_mem_abstract_map() {
+        let mut sim = any_sim(any_flags());
+        let ans: Option<usize> = if kani::any() { let i: usize = kani::any(); kani::assume(i < 4); Some(i) } else { None };
+        unsafe { MAP_ANSWER = ans; }
+        let addr: u16 = kani::any();
+        let ctx = MemAccessCtx { privileged: kani::any(), strict: kani::any(), io_effects: kani::any(), track_access: kani::any() };
+        let (pc0, psr0, ssp0) = (sim.pc, sim.psr.get(), sim.saved_sp.get());
+        let r = sim.read_mem(addr, ctx);
+        let in_user = addr >= 0x3000 && addr < 0xFE00;
+        unsafe {
+            if !ctx.privileged && !in_user { assert!(matches!(r, Err(SimErr::AccessViolation)) && DEV_READS == 0 && { let m = MAP_ASKED; m.is_none() }); }
+            else if addr < 0xFE00 { assert!(r.is_ok() && DEV_READS == 0); }
+            else {
+                assert!(MAP_ASKED == Some(addr));
+                let w = r.unwrap();
+                match ans {
+                    Some(0) => assert!(DEV_READS == 0 && w.get() == pc0),
+                    Some(1) => assert!(DEV_READS == 0 && w.get() == psr0),
+                    Some(3) => assert!(DEV_READS == 0 && w.get() == ssp0),
+                    Some(_) => assert!(DEV_READS == 0),
+                    None => assert!(DEV_READS == 1),
+                }
+            }
+        }
+        assert!(sim.pc == pc0 && sim.psr.get() == psr0);
+    }
+
+    // L1 write_mem at the concrete PSR port with the default internal-register map
+    fn stub_observe(_o: &mut observer::AccessObserver, _addr: u16, _set: AccessSet) {}
+    fn stub_io_write(_d: &mut DeviceHandler, _addr: u16, _data: u16) -> bool { panic!("device must not be called for a mapped internal register") }
+    #[kani::proof]
+    #[kani::stub(std::hash::RandomState::new, stub_random_state)]
+    #[kani::stub(observer::AccessObserver::update_mem_accesses, stub_observe)]
+    #[kani::stub(<DeviceHandler as ExternalDevice>::io_write, stub_io_write)]
+    #[kani::unwind(17)]
+    fn l1_write_psr_port() {
+        let mut sim = any_sim(any_flags());
+        sim.ireg_mmap = InternalRegister::default_mmap();
+        let data: Word = kani::any();
+        let ctx = MemAccessCtx { privileged: kani::any(), strict: kani::any(), io_effects: kani::any(), track_access: kani::any() };
+        let pc0 = sim.pc;
+        let r = sim.write_mem(0xFFFC, data, ctx);
+        if !ctx.privileged { assert!(matches!(r, Err(SimErr::AccessViolation))); }
+        else if ctx.strict && !data.is_init() { assert!(matches!(r, Err(SimErr::StrictIOSetUninit))); }
+        else { assert!(r.is_ok()); assert!(sim.psr.get() & 0x8700 == data.get() & 0x8700); assert!(sim.mem[0xFFFC] == data); }
+        assert!(sim.pc == pc0);
+    }
+
+    // C14 relational: strict vs non-strict from the same state and the same read words
+    static mut READS: [Word; 6] = [Word::ZERO_INIT; 6];
+    static mut READ_I: usize = 0;
+    fn stub_read_det(_s: &mut Simulator, addr: u16, ctx: MemAccessCtx) -> Result<Word, SimErr> {
+        if !ctx.privileged && !(addr >= 0x3000 && addr < 0xFE00) { return Err(SimErr::AccessViolation); }
+        let w = unsafe { let i = READ_I; READ_I += 1; if i < 6 { READS[i] } else { kani::any() } };
+        log_push(MemOp { write: false, addr, data: w, privileged: ctx.privileged, track: ctx.track_access });
+        Ok(w)
+    }
+    fn mk(pc: u16, psr: u16, ssp: Word, regs: [Word; 8], depth: u64, flags: SimFlags) -> Simulator {
+        let mut s = any_sim(flags);
+        s.pc = pc; s.psr = PSR(psr); s.saved_sp = ssp; s.frame_stack = FrameStack::verif_new(depth);
+        let mut i = 0u8; while i < 8 { s.reg_file[crate::ast::Reg::try_from(i).unwrap()] = regs[i as usize]; i += 1; }
+        s.prefetch = false; s.instructions_run = 0;
+        s
+    }
+    #[kani::proof]
+    #[kani::stub(std::hash::RandomState::new, stub_random_state)]
+    #[kani::stub(<DeviceHandler as ExternalDevice>::poll_interrupt, stub_poll_none)]
+    #[kani::stub(Simulator::read_mem, stub_read_det)]
+    #[kani::stub(Simulator::write_mem, stub_write_mem)]
+    #[kani::unwind(9)]
+    fn c14_relational() {
+        let (pc, psr, ssp, regs, depth): (u16, u16, Word, [Word; 8], u64) = (kani::any(), kani::any(), kani::any(), kani::any(), kani::any());
+        kani::assume(depth < u64::MAX);
+        unsafe { READS = kani::any(); }
+        let base = SimFlags { strict: false, use_real_traps: false, machine_init: MachineInitStrategy::Known { value: 0 }, debug_frames: false, ignore_privilege: kani::any() };
+        let mut a = mk(pc, psr, ssp, regs, depth, base);
+        let mut b = mk(pc, psr, ssp, regs, depth, SimFlags { strict: true, ..base });
+        unsafe { READ_I = 0; LOG_N = 0; }
+        let ra = a.step_in();
+        let na = unsafe { LOG_N };
+        unsafe { READ_I = 0; LOG_N = 0; }
+        let rb = b.step_in();
+        let nb = unsafe { LOG_N };
+        if rb.is_ok() {
+            assert!(ra.is_ok());
+            assert!(a.pc == b.pc && a.psr.get() == b.psr.get() && a.saved_sp == b.saved_sp);
+            assert!(a.frame_stack.len() == b.frame_stack.len());
+            assert!(na == nb);
+        } else if ra.is_ok() {
+            assert!(matches!(rb, Err(SimErr::StrictRegSetUninit | SimErr::StrictMemSetUninit | SimErr::StrictIOSetUninit | SimErr::StrictJmpAddrUninit
+                | SimErr::StrictSRAddrUninit | SimErr::StrictMemAddrUninit | SimErr::StrictPCCurrUninit | SimErr::StrictPCNextUninit | SimErr::StrictPSRSetUninit)));
+        }
+    }
+    fn stub_poll_none(_d: &mut DeviceHandler) -> Option<device::Interrupt> { None }
+
+    fn stub_io_write_any(_d: &mut DeviceHandler, _addr: u16, _data: u16) -> bool { kani::any() }
+    #[kani::proof]
+    #[kani::stub(std::hash::RandomState::new, stub_random_state)]
+    #[kani::stub(observer::AccessObserver::update_mem_accesses, stub_observe)]
+    #[kani::stub(<DeviceHandler as ExternalDevice>::io_write, stub_io_write_any)]
+    #[kani::unwind(17)]
+    fn l1_write_any_addr_default_map() {
+        let mut sim = any_sim(any_flags());
+        sim.ireg_mmap = InternalRegister::default_mmap();
+        let addr: u16 = kani::any();
+        let data: Word = kani::any();
+        let ctx = MemAccessCtx { privileged: kani::any(), strict: kani::any(), io_effects: kani::any(), track_access: kani::any() };
+        let probe: u16 = kani::any();
+        let m0 = sim.mem[probe];
+        let (pc0, psr0) = (sim.pc, sim.psr.get());
+        let r = sim.write_mem(addr, data, ctx);
+        let in_user = addr >= 0x3000 && addr < 0xFE00;
+        if !ctx.privileged && !in_user { assert!(matches!(r, Err(SimErr::AccessViolation))); assert!(sim.mem[probe] == m0 && sim.psr.get() == psr0); }
+        else if addr < 0xFE00 {
+            if ctx.strict && !data.is_init() { assert!(matches!(r, Err(SimErr::StrictMemSetUninit))); assert!(sim.mem[probe] == m0); }
+            else { assert!(r.is_ok() && sim.mem[addr] == data); if probe != addr { assert!(sim.mem[probe] == m0); } }
+            assert!(sim.psr.get() == psr0);
+        } else {
+            if probe != addr { assert!(sim.mem[probe] == m0); }
+            if addr != 0xFFFC { assert!(sim.psr.get() == psr0); }
+            else if r.is_ok() { assert!(sim.psr.get() & 0x8700 == data.get() & 0x8700); }
+        }
+        assert!(sim.pc == pc0);
+    }
+
     // S2: reset against a stubbed constructor
     static mut NEW_CALLS: u32 = 0;
     static mut NEW_FLAGS: Option<SimFlags> = None;
